@@ -27,7 +27,11 @@ MAGIC = [
 MAGIC_INTS = [0, 1, -1, 7, 99, 100, 101, 120, 200, 1024, 65536, -32600, -32603, -32700, -32601, 2025, 20250618]
 # text that breaks naive logging / formatting / embedding
 HOSTILE = ["%", "%s %d", "%(x)s", "%.120s", "{}", "{0}", "{x!r}", "{", "}", "'", "\\", "\"", "%%", "\u0000", "$HOME", "`x`"]
-CLASSES = [ASCII, TWO, THREE, FOUR, ESCAPED, MAGIC, HOSTILE]
+# text that looks like the syntax being produced / parsed: JSON tokens and delimiters, JSON inside JSON, line framing
+SYNTAX = ["[NaN]", ":Infinity,", "values=[1.0, NaN]", "NaN", "-Infinity", '{"jsonrpc":"2.0","id":1,"result":{}}', "[]", "{}", "[{}]",
+          "\\n", "\\u000a", '",', '"}', '":', "null", "true", "-0", "1e5", "// c", "/* c */", '\n{"jsonrpc":"2.0","method":"x"}\n',
+          "\r\n\r\n", "Content-Length: 5", "data: {}", "event: message", ",", ":", "[", "]", "\\", '\\"', "\\u2028", "'", "\t"]
+CLASSES = [ASCII, TWO, THREE, FOUR, ESCAPED, MAGIC, HOSTILE, SYNTAX]
 
 JUNK = [
     "", " ", "\t", "   \t ", "not json", "{", "}", "}{", '{"a":}', "5", '"str"', "null", "true",
@@ -37,6 +41,8 @@ JUNK = [
     "0", '""', "false", "{}", "[]", "[{}]", "[0]", "%s", "%s %d %(x)s", "{0}", "{}{}", "x" * 119, "x" * 120, "x" * 121,
     "y" * 199, "y" * 200, "y" * 201, "\x00", "\x00{}", '\ufeff{"jsonrpc":"2.0","method":"bom"}', "\r", "\r\r", " \r", "None", "NaN",
     "Infinity", "-0", "1e999", "'single'", '{"jsonrpc":"2.0","method":"m",}', '{"jsonrpc":"2.0","method":"m"}{"jsonrpc":"2.0","method":"n"}',
+    "NaN", "[NaN]", '{"a":NaN}', '{"jsonrpc":"2.0","id":NaN,"method":"m"}', '{"jsonrpc":"2.0","method":"m","params":{"v":Infinity}}',
+    "-Infinity", '{"jsonrpc":"2.0","method":"m"} // c', "data: {}", ": keep-alive", "event: message", "id: 1", "retry: 5",
     "junk\rmore", "\rjunk", '{"jsonrpc":"2.0","method":"half', 'half","id":3}', "\ufeff", "NaN{", "<html>", "Content-Length: 12",
 ]
 
@@ -73,7 +79,8 @@ def rand_message(rng):
     if kind == "req":
         d = {"jsonrpc": "2.0", "id": idv, "method": "m/" + rand_string(rng, 2)}
         if rng.random() < 0.7:
-            d["params"] = {rand_string(rng, 2) or "k": rand_string(rng), "n": None, "l": [rand_string(rng, 2), 1, None]}
+            d["params"] = {rand_string(rng, 2) or "k": rand_string(rng), "n": None, "l": [rand_string(rng, 2), 1, None],
+                           rng.choice(SYNTAX): rng.choice(SYNTAX)}
     elif kind == "notif":
         d = {"jsonrpc": "2.0", "method": "notifications/" + rand_string(rng, 2)}
         if rng.random() < 0.7:
@@ -223,6 +230,35 @@ def shrink_stream(case):
             total = sum(lens) - 1
             ncuts = [p for p in ncuts if 0 < p < total]
             yield dict(case, items=items[:i] + [dict(items[i], term="\n")] + items[i + 1:], cuts=ncuts)
+
+
+TYPE_VALUES = [None, True, False, 0, 7, -1, 1.5, 7.0, "", "7", "m", [], [1], {}, {"a": 1}]
+
+
+def type_matrix_lines():
+    """every JSON type (and `missing`) at every peer-supplied position of a message: id, method, params, result,
+    error, error.code, error.message, error.data, jsonrpc.  Which of them is a well-formed message is the library's
+    parser's decision (the oracle asks it)."""
+    base = {
+        "id": {"jsonrpc": "2.0", "id": 1, "method": "m", "params": {}},
+        "method": {"jsonrpc": "2.0", "id": 1, "method": "m"},
+        "params": {"jsonrpc": "2.0", "id": 1, "method": "m", "params": {}},
+        "result": {"jsonrpc": "2.0", "id": 1, "result": {}},
+        "error": {"jsonrpc": "2.0", "id": 1, "error": {"code": 1, "message": "m"}},
+        "jsonrpc": {"jsonrpc": "2.0", "method": "m"},
+    }
+    out = []
+    for pos, d in base.items():
+        for v in TYPE_VALUES:
+            out.append(json.dumps(dict(d, **{pos: v})))
+        out.append(json.dumps({k: x for k, x in d.items() if k != pos}))  # missing
+    for f in ("code", "message", "data"):
+        for v in TYPE_VALUES:
+            out.append(json.dumps({"jsonrpc": "2.0", "id": 1, "error": dict({"code": 1, "message": "m"}, **{f: v})}))
+        out.append(json.dumps({"jsonrpc": "2.0", "id": 1, "error": {k: x for k, x in {"code": 1, "message": "m"}.items() if k != f}}))
+    for v in TYPE_VALUES:  # response ids of every type (per-request routing keys them by str(id))
+        out.append(json.dumps({"jsonrpc": "2.0", "id": v, "result": {"r": 1}}))
+    return out
 
 
 def notif_ok(got, offered, floor=100):
